@@ -29,7 +29,7 @@ def obligations(tier):
     # tokenizer error sites on the C02 catalogue
     cat = C02.catalogue()
     for (ci, state), prefixes in sorted(cat.items()):
-        if ci not in (0, 1, 2, 4):
+        if ci not in ((0, 1, 2, 4) if q else (0, 2, 4)):
             continue
         k = (2 if q else 3) - (1 if state in ("entityDataState", "characterReferenceInRcdata") else 0)
         obs.append(Ob("C16.tokenizer-errors/%s/cfg%d" % (state, ci), "crosshair", "harness.C16_tok:errors_wellformed", T, param={"k": k, "cfg": ci, "prefix": prefixes[0]},
